@@ -581,7 +581,7 @@ func r016(c *Ctx, r *R) {
 			r.Check(dominatesInstr(snap, rs), "shutdown:snapshot-before-raft", rs.Pos(), "the final snapshot is taken before raft is stopped", "raft is stopped before the final snapshot: the snapshot cannot be taken and recent entries are replayed from the log only")
 			r.Check(dominatesInstr(rs, cl), "shutdown:raft-before-store", cl.Pos(), "raft is stopped before its store is closed", "the log store is closed while raft may still write to it")
 			// unconditional
-			r.Check(len(guardsOf(rs.Block())) == 0 && len(guardsOf(cl.Block())) == 0, "shutdown:unconditional", f.Pos(), "raft stop and store close happen on every path", "raft stop / store close are conditional")
+			r.Check(onEveryPath(rs) && onEveryPath(cl), "shutdown:unconditional", f.Pos(), "raft stop and store close happen on every path", "raft stop / store close are conditional")
 		}
 	}
 	// Consensus.Shutdown holds shutdownLock exclusively around raft.Shutdown
